@@ -118,6 +118,14 @@ def _exec_one(sched):
         return {"ok": False, "err": "%s: %s" % (type(ex).__name__, ex), "tb": traceback.format_exc()}
 
 
+def freeze_heap():
+    """Worker initializer: the objects inherited from the parent (schedules, TLC output ...) are moved to the permanent
+    generation, so that the per-schedule gc.collect() of the single-step loop only looks at what the schedule created."""
+    import gc
+    gc.collect()
+    gc.freeze()
+
+
 def execute_all(schedules, procs=NCPU, chunk=64):
     """Run every schedule on the real code (fresh event loop each), in parallel worker processes."""
     if not schedules:
@@ -126,7 +134,7 @@ def execute_all(schedules, procs=NCPU, chunk=64):
     if procs <= 1 or len(schedules) < 8:
         return [_exec_one(s) for s in schedules]
     ctx = mp.get_context("fork")
-    with ctx.Pool(procs) as pool:
+    with ctx.Pool(procs, initializer=freeze_heap) as pool:
         return pool.map(_exec_one, schedules, chunksize=max(1, min(chunk, len(schedules) // (procs * 2) or 1)))
 
 
